@@ -38,8 +38,8 @@ type N struct {
 
 	// Filled by Print; not part of the scenario data.
 	id         int
-	start, end int // rune offsets [start,end)
-	line, col  int // location the library is expected to attach (1-based line, 0-based column)
+	start, end int   // rune offsets [start,end)
+	line, col  int   // location the library is expected to attach (1-based line, 0-based column)
 	toks       []int // rune offsets at which the node's OWN tokens start (name, operator, brackets, punctuation)
 }
 
@@ -126,6 +126,83 @@ type Layout struct {
 	// Lead: white space (blanks, line breaks) before the first token; Trail: after the last.
 	Lead  string `json:"lead,omitempty"`
 	Trail string `json:"trail,omitempty"`
+	// Pad: that many empty lines, then that many blanks, before Lead (far lines and
+	// far columns without storing the white space).
+	Pad [2]int `json:"pad,omitempty"`
+	// FullParen: every unary, binary and conditional form in its own
+	// parentheses. Otherwise a third of the layouts (by Salt) print only the
+	// parentheses the grammar's precedence and associativity rules require, so
+	// that those rules decide what the library makes of the text.
+	FullParen bool `json:"full_paren,omitempty"`
+}
+
+func (l Layout) minParen() bool { return !l.FullParen && l.Salt%3 == 1 }
+
+// binPrec: the documented precedence table (all left-associative except **).
+var binPrec = map[string]int{"or": 10, "||": 10, "and": 15, "&&": 15, "==": 20, "!=": 20, "<": 20, ">": 20, ">=": 20, "<=": 20,
+	"not in": 20, "in": 20, "matches": 20, "contains": 20, "startsWith": 20, "endsWith": 20, "..": 25, "+": 30, "-": 30, "*": 60, "/": 60, "%": 60, "**": 70}
+
+func isOpForm(n *N) bool { return n.K == "un" || n.K == "bin" || n.K == "cond" }
+
+// bareIn: may the operator form c, the i-th child of p, stand without its own
+// parentheses and still be read back as the same tree?
+func bareIn(p *N, i int, c *N) bool {
+	switch p.K {
+	case "call", "arr", "pair":
+		return true // delimited by brackets and commas
+	case "meth":
+		return i > 0
+	case "idx":
+		return i == 1
+	case "slice":
+		return i > 0 && c.K != "cond"
+	case "bi":
+		return true
+	case "cond":
+		if c.K == "cond" {
+			return i > 0 // a ? b : c ? d : e reads as a ? b : (c ? d : e)
+		}
+		return true
+	case "un":
+		return c.K == "un" // the operand of a sign ends before any binary operator
+	case "bin":
+		pp, ok := binPrec[p.S]
+		if !ok {
+			return false
+		}
+		switch c.K {
+		case "cond":
+			return false
+		case "un":
+			if i == 0 && (c.S == "not" || c.S == "!") {
+				return pp < 50
+			}
+			return true
+		default:
+			cp, ok := binPrec[c.S]
+			if !ok {
+				return false
+			}
+			rightAssoc := p.S == "**"
+			if cp != pp {
+				return cp > pp
+			}
+			return (i == 0) != rightAssoc
+		}
+	}
+	return false
+}
+
+func markBare(n *N, bare map[*N]bool) {
+	for i, c := range n.C {
+		if c == nil {
+			continue
+		}
+		if isOpForm(c) && bareIn(n, i, c) {
+			bare[c] = true
+		}
+		markBare(c, bare)
+	}
 }
 
 type printer struct {
@@ -137,7 +214,19 @@ type printer struct {
 	tok    uint64
 	nextID int
 	nodes  []*N
-	cur    *N // node whose own tokens are being emitted
+	cur    *N          // node whose own tokens are being emitted
+	bare   map[*N]bool // operator forms printed without their own parentheses
+}
+
+func (p *printer) open(n *N) {
+	if !p.bare[n] {
+		p.tk("(")
+	}
+}
+func (p *printer) close(n *N) {
+	if !p.bare[n] {
+		p.tk(")")
+	}
 }
 
 // Printed is the result of printing a tree: the source text plus, for every
@@ -150,6 +239,16 @@ type Printed struct {
 
 func Print(root *N, lay Layout) *Printed {
 	p := &printer{line: 1, lay: lay}
+	if lay.minParen() {
+		p.bare = map[*N]bool{}
+		if isOpForm(root) {
+			p.bare[root] = true
+		}
+		markBare(root, p.bare)
+	}
+	if lay.Pad[0] > 0 || lay.Pad[1] > 0 {
+		p.raw(strings.Repeat("\n", lay.Pad[0]) + strings.Repeat(" ", lay.Pad[1]))
+	}
 	p.raw(lay.Lead)
 	p.node(root)
 	p.raw(lay.Trail)
@@ -308,13 +407,13 @@ func (p *printer) node(n *N) {
 		n.line, n.col = p.token(n.S)
 		p.args(n.C)
 	case "un":
-		p.tk("(")
+		p.open(n)
 		n.line, n.col = p.token(n.S)
 		p.sep()
 		p.node(n.C[0])
-		p.tk(")")
+		p.close(n)
 	case "bin":
-		p.tk("(")
+		p.open(n)
 		p.node(n.C[0])
 		p.sep()
 		n.line, n.col = p.token(n.S)
@@ -326,9 +425,9 @@ func (p *printer) node(n *N) {
 			p.sep()
 		}
 		p.node(n.C[1])
-		p.tk(")")
+		p.close(n)
 	case "cond":
-		p.tk("(")
+		p.open(n)
 		p.node(n.C[0])
 		p.sep()
 		n.line, n.col = p.token("?")
@@ -338,7 +437,7 @@ func (p *printer) node(n *N) {
 		p.tk(":")
 		p.sep()
 		p.node(n.C[2])
-		p.tk(")")
+		p.close(n)
 	case "arr":
 		n.line, n.col = p.token("[")
 		for i, c := range n.C {
